@@ -408,6 +408,40 @@ fn roundtrips<X: Sx>(ctx: &Ctx, idx: u64) {
         if BBSplusZKPoK::from_bytes(&zk.to_bytes()).ok().as_ref() != Some(&zk) { bad("ZKPoK/octets"); }
         ctx.count("objects_round_tripped", 12);
     }
+    // volume: many distinct objects through the octet codecs only (value shapes that occur once in a few hundred objects)
+    let (sk, pk) = keypair::<X>(&mut r);
+    let msgs = gen_messages(&mut r, 3, 0);
+    let case = format!("{}/roundtrip/volume", name::<X>());
+    ctx.distinct(&case);
+    let bad = |what: &str, b: &[u8]| ctx.violation(&format!("C09:roundtrip/{}", what), json!({"case":case,"octets":hx_full(b)}));
+    for k in 0..ctx.t(300usize, 2500usize) {
+        let hdr = (k as u64).to_le_bytes();
+        let sig = Sig::<X>::sign(Some(&msgs), &sk, &pk, Some(&hdr)).unwrap();
+        let sb = sig.to_bytes();
+        match ctx.call("decode/Signature", &case, None, || Sig::<X>::from_bytes(&sb)).value {
+            Some(s2) if s2 == sig && s2.to_bytes() == sb => {}
+            _ => bad("Signature/octets", &sb),
+        }
+        let proof = Pok::<X>::proof_gen(&pk, &sb, Some(&hdr), None, Some(&msgs), Some(&[k % 3])).unwrap();
+        let pb = proof.to_bytes();
+        match ctx.call("decode/PoKSignature", &case, None, || Pok::<X>::from_bytes(&pb)).value {
+            Some(p2) if p2 == proof && p2.to_bytes() == pb => {}
+            _ => bad("PoKSignature/octets", &pb),
+        }
+        let (com, bf) = Com::<X>::commit(Some(&msgs[..k % 3])).unwrap();
+        let cb = com.to_bytes();
+        match ctx.call("decode/Commitment", &case, None, || Com::<X>::from_bytes(&cb)).value {
+            Some(c2) if c2 == com && c2.to_bytes() == cb => {}
+            _ => bad("Commitment/octets", &cb),
+        }
+        let bb = bf.to_bytes();
+        if BlindFactor::from_bytes(&bb).map(|b| b.to_bytes()).ok() != Some(bb) { bad("BlindFactor/octets", &bb); }
+        let kp = Kp::<X>::generate(&rand_bytes(&mut r, 32), None, None).unwrap();
+        let (skb, pkb) = (kp.private_key().to_bytes(), kp.public_key().to_bytes());
+        if BBSplusSecretKey::from_bytes(&skb).map(|x| x.to_bytes()).ok() != Some(skb) { bad("SecretKey/octets", &skb); }
+        if BBSplusPublicKey::from_bytes(&pkb).map(|x| x.to_bytes()).ok() != Some(pkb) { bad("PublicKey/octets", &pkb); }
+        ctx.count("objects_round_tripped", 6);
+    }
     let _ = (G2Projective::IDENTITY, Scalar::ZERO);
 }
 
